@@ -13,7 +13,7 @@ From Coq Require Import String.
 From Coq Require Import List Ascii ZArith Bool.
 From CGV Require Import Base.PyBase Base.PyVal Base.NxGraph Gen.HydroGen Hydro.Hydrogens Hydro.Squash
      Hydro.SquashDefs Hydro.SquashProofs Hydro.SquashTotal Hydro.ShareProofs Hydro.QuotientDefs Hydro.QuotientProofs Hydro.BangBonds Hydro.BangGraph.
-From CGV Require Compose.Statements Compose.CutModel Compose.CutSkeleton Compose.GraphAdj Hydro.ShareCut Hydro.ShareCutTotal Hydro.SquashTotalAny Hydro.QuotientAttrs Hydro.ShareCutExamples.
+From CGV Require Compose.Statements Compose.CutModel Compose.CutSkeleton Compose.GraphAdj Hydro.ShareCut Hydro.ShareCutTotal Hydro.SquashTotalAny Hydro.QuotientAttrs Hydro.NumTotal Hydro.ShareCutFull Hydro.ShareCutExamples.
 From CGV Require Hydro.HydroCheck Hydro.SquashCheck.
 From CGV Require Resolve.GraphOps Resolve.CopyProofs Resolve.Bonding.
 Import ListNotations.
@@ -423,6 +423,53 @@ Proof. exact ShareCutExamples.share_vs_cut_resolver_total_hypotheses. Qed.
 Theorem C10_wf_dict_decidable : forall fd, ShareCutTotal.wf_dictb fd = true -> CopyProofs.wf_dict fd.
 Proof. exact ShareCutTotal.wf_dictb_sound. Qed.
 
+(** totality from hypotheses on the INPUTS: the hydrogen counts of the bonded graph are numbers when those of the
+    templates are (kept by the copy and the stamps, by add_edge, by the all-atom bookkeeping: dec_hcount returns
+    an int or a float literal both parsers accept) *)
+Theorem C10_squash_total_inputs : forall fd legacy aa meta m1 fg1 m2 fg2, CopyProofs.wf_dict fd -> NumTotal.hnum_dict fd ->
+  GraphOps.resolve_disconnected fd meta = Ok (m1, fg1) -> GraphOps.bonding_step legacy aa meta m1 fg1 = Ok (m2, fg2) ->
+  length m2 = length m1 -> wf_graph m2 -> bondings_ok (edge_attr_items m2 squash_edge_attr) ->
+  exists g', squash_atoms m2 = Ok g' /\ typed_g g' /\ wf_graph g' /\
+             (length g' + length (squash_plan [] (bang_items m2)) = length m2)%nat.
+Proof. exact NumTotal.squash_total_inputs. Qed.
+Theorem C10_hnum_dict_decidable : forall fd, ShareCutFull.hnum_dictb fd = true -> NumTotal.hnum_dict fd.
+Proof. exact ShareCutFull.hnum_dictb_sound. Qed.
+(** THE METAMORPHIC CLAUSE IN ONE STATEMENT, hypotheses on the inputs only (all decidable: wf_cutb, templates_okb,
+    is_baseb, wf_dictb, hnum_dictb, expandsb): the fragments of C with the L-descriptors written `!` and the
+    fragments of D both resolve; squash_atoms returns; the squashed graph has as many atoms as the molecule; pi_cut
+    is a bijection onto the atoms of the D result that preserves adjacency and the payload attributes; the atom
+    standing for an atom of the molecule lists the coarse node of every copy *)
+Theorem C10_share_vs_cut_resolver_full : forall C D L aa orig fdC BC fdD BD,
+  CutModel.wf_cut C -> CutModel.templates_ok C fdC -> CutModel.is_base C BC -> CopyProofs.wf_dict fdC -> NumTotal.hnum_dict fdC ->
+  CutModel.wf_cut D -> CutModel.templates_ok D fdD -> CutModel.is_base D BD ->
+  (aa = true -> forall x, In x (CutModel.flat C) ->
+     (exists e, aget (S "element") (CutModel.payload C x) = Some e) /\
+     exists h, aget (S "hcount") (CutModel.payload C x) = Some (VInt h)) ->
+  (aa = true -> forall x, In x (CutModel.flat D) ->
+     (exists e, aget (S "element") (CutModel.payload D x) = Some e) /\
+     exists h, aget (S "hcount") (CutModel.payload D x) = Some (VInt h)) ->
+  ShareCut.expands C D L orig -> ShareCutTotal.same_payload C D orig ->
+  exists gs fgs gd fgd g',
+    (st <- GraphOps.resolve_disconnected (fdmap (bangify L) fdC) BC ;;
+     GraphOps.bonding_step true aa BC (fst st) (snd st)) = Ok (gs, fgs) /\
+    (st <- GraphOps.resolve_disconnected fdD BD ;; GraphOps.bonding_step true aa BD (fst st) (snd st)) = Ok (gd, fgd) /\
+    squash_atoms gs = Ok g' /\
+    length gs = length (CutModel.flat C) /\ length g' = length (CutModel.flat D) /\
+    (forall y, In y (node_keys g') -> has_node gd (ShareCut.pi_cut C D orig y) = true) /\
+    (forall a, has_node gd a = true -> exists y, In y (node_keys g') /\ ShareCut.pi_cut C D orig y = a) /\
+    (forall y x, In y (node_keys g') -> In x (node_keys g') ->
+       ShareCut.pi_cut C D orig y = ShareCut.pi_cut C D orig x -> y = x) /\
+    (forall y x, In y (node_keys g') -> In x (node_keys g') ->
+       has_edge g' y x = has_edge gd (ShareCut.pi_cut C D orig y) (ShareCut.pi_cut C D orig x)) /\
+    (forall y key v, In y (node_keys g') -> aget key (CutModel.payload C (ShareCut.atom_of C y)) = Some v ->
+       ~ In key CutModel.reserved -> key <> S "hcount" -> key <> S "contraction" ->
+       node_get g' y key = Some v /\ node_get gd (ShareCut.pi_cut C D orig y) key = Some v) /\
+    (forall x, In x (CutModel.flat C) -> exists y l, In y (node_keys g') /\
+       ShareCut.pi_cut C D orig y = CutModel.phi D (orig x) /\
+       node_get g' y (S "fragid") = Some (VList l) /\ In (VInt (Z.of_nat (CutModel.owner C x))) l).
+Proof. exact ShareCutFull.share_vs_cut_resolver_full. Qed.
+Definition C10_share_vs_cut_resolver_full_instance := CGV.Hydro.ShareCutExamples.share_vs_cut_resolver_full_instance.
+
 (** the compose component's half (Compose/SharedCut.v, cited from Compose/Statements.v; built on BangGraph and
     C10_squash_quotient): the `!`-written templates of a well-formed cut resolve to the written molecule's skeleton
     with those texts rewritten; squash_atoms contracts exactly the cut bonds that are `$` pairs with a label in L;
@@ -506,6 +553,10 @@ Print Assumptions C10_squash_keeps_attrs.
 Print Assumptions C10_share_vs_cut_resolver_atoms.
 Print Assumptions C10_same_payload_example.
 Print Assumptions C10_share_vs_cut_count.
+Print Assumptions C10_squash_total_inputs.
+Print Assumptions C10_hnum_dict_decidable.
+Print Assumptions C10_share_vs_cut_resolver_full.
+Print Assumptions C10_share_vs_cut_resolver_full_instance.
 Print Assumptions C10_shared_bonding_skeleton.
 Print Assumptions C10_bang_items_sound.
 Print Assumptions C10_bang_items_complete.
